@@ -496,7 +496,7 @@ static void build_profile(void) {
         PASSWORDS[0] = ""; PASSWORDS[1] = "a"; PASSWORDS[2] = "\xC3\xA9"; PASSWORDS[3] = "e\xCC\x81"; PASSWORDS[4] = "\xEF\xBD\xB6"; PASSWORDS[5] = LONGPW; PASSWORDS[6] = "\xE3\x82\xAB"; NPW = 7;
         if (G_thorough) { PASSWORDS[7] = "fi"; PASSWORDS[8] = "\xEF\xAC\x81"; NPW = 9; }   /* U+FB01 LATIN SMALL LIGATURE FI is compatibility-equivalent to "fi" */
         RECODES[0] = (struct recv){ 0, 1, 1 }; RECODES[1] = (struct recv){ 1, 9, 0 }; RECODES[2] = (struct recv){ 4, 0, 0 }; NREC = 3;
-        add_op(O_ENABLE, 13, 0, 0, "enable_features(0xffffffff)");
+        add_op(O_ENABLE, 13, 0, 0, "enable_features(0xffffffff)"); add_op(O_ENABLE, 0, 0, 0, "enable_features(0)");      /* the password operation does not depend on what is enabled when it runs */
         add_op(O_CREATE, 0, 0, 0, "create(features=0)"); add_op(O_CREATE, 0, 5, 1, "create'(features=5)");
         add_op(O_FREE, 0, 0, 0, "free(slot0)"); add_op(O_FREE, 1, 0, 0, "free(slot1)");
         for (int p = 0; p < NPW; p++) add_op(O_CRYPT, 0, p, 0, "crypt(slot0,pw%d)", p);
